@@ -1,25 +1,25 @@
 /-
   C13 — an extracted sub-model computes the same values as the full model.
 
-  Model: `Model.C13.extract` (statement-by-statement mirror of `ModelCompiler.extract`), `buildCode`
-  (`Model.build_code`), the evaluator model `Model.Evaluator` (`fresh` = reference evaluation).
+  Model: `Model.C13.extract` (statement-by-statement mirror of `ModelCompiler.extract` as it is after the
+  repairs of D27, D1301 and D1302), `buildCode` (`Model.build_code`), the evaluator model `Model.Evaluator`
+  (`fresh` = reference evaluation).
   Spec:  `Spec.C13.Closure succ roots`, instantiated with the dependency graph `deps m` of the model.
 
-  Proved for every model, focus list, function semantics `sem`, fuel and sequence of `set_cell_value`:
-    * `fresh_reads_closure`            evaluation of `f` reads only `Closure {f}`;
-    * `worklist_terminates`            the `while terms_to_copy` loop ends within `workFuel` iterations;
-    * `extract_contains_closure_partial`, `extract_sound_partial`   under the guard `NameFree` (finding D1301:
-      a formula that mentions a DEFINED NAME is not followed by `extract`; counter-example below);
-    * `extract_raises_D1302`           focusing a name bound to a range with a member cell that is not in
-                                       `model.cells` raises KeyError (finding D1302, counter-example);
-    * `extract_minimal_partial`        nothing outside the closure is copied (same guard);
-    * `extract_pure`, `extract_formulae_empty`, `extract_copies`;
-    * `extractRepaired_sound`, `extractRepaired_contains_closure`, `worklistRepaired_terminates`: with the
-      proposed repair of D1301 (proposed_fixes/C13-D1301.diff, modelled as `extractR`) the property holds at
-      full strength, without the guard.
+  Proved for every well-formed model, focus list, function semantics `sem`, fuel and sequence of
+  `set_cell_value`:
+    * `fresh_reads_closure`        evaluation of `f` reads only `Closure {f}`;
+    * `worklist_terminates`        the `while terms_to_copy` loop ends within `workFuel` iterations;
+    * `extract_contains_closure`   the extracted model holds every cell and range of the closure of the focus,
+                                   with identical contents;
+    * `extract_sound`              every focused address evaluates in the extract as in the original, also after
+                                   the same `set_cell_value`s on both;
+    * `extract_minimal`            nothing outside the closure is copied;
+    * `extract_copies`, `extract_formulae_empty`, `extract_raises_only_for_dangling_name`, `extract_pure`.
+  The hypotheses are hygiene of compiled workbooks only (`WF`, decidable: `wfb`) and "no focused item is a
+  range key"; each has a non-vacuity `example` below.
 -/
 import XlVerif.Lemmas.C13Minimal
-import XlVerif.Lemmas.C13Repair
 namespace XlVerif.Props.C13
 open XlVerif XlVerif.Model.Evaluator XlVerif.Model.C13 XlVerif.Spec.C13 XlVerif.Lemmas.C13
 
@@ -47,190 +47,160 @@ example (m : MState) (R : Addr → Prop) : Agree R m m :=
 
 /-! ### the worklist terminates -/
 
-/-- `while terms_to_copy:` ends: after `workFuel` iterations the list is empty, whatever has been copied
-    before and whatever is on the list -/
-theorem worklist_terminates (m x : XModel) (todo : List Addr) :
+/-- `while terms_to_copy:` ends: after `workFuel` iterations the list is empty, whatever copy of part of the
+    model has been built before and whatever is on the list -/
+theorem worklist_terminates (m x : XModel) (todo : List Addr) (hwf : WF m) (hs : Sub x m) :
     (worklist m (workFuel m todo) x todo).2 = [] :=
-  worklist_finishes m _ x todo (mu_le_workFuel m x todo)
+  worklist_finishes hwf _ x todo hs (mu_le_workFuel m x todo)
+
+example (m : XModel) : Sub XModel.empty m := sub_empty m
 
 /-! ### what the extracted model contains -/
 
-/-- everything in the extracted model is an identical (deep) copy of an entry of the original; `formulae`
-    is not filled -/
-theorem extract_copies (m x : XModel) (focus : List Addr) (hrc : RangeNotCell m) (hx : extract m focus = .ok x) :
+/-- everything in the extracted model is an identical (deep) copy of an entry of the original -/
+theorem extract_copies (m x : XModel) (focus : List Addr) (hwf : WF m) (hx : extract m focus = .ok x) :
     (∀ a c, x.st.cell? a = some c → m.st.cell? a = some c)
     ∧ (∀ k r, x.st.range? k = some r → m.st.range? k = some r)
     ∧ (∀ n t, assoc n x.st.names = some t → assoc n m.st.names = some t)
     ∧ (∀ n rn, assoc n x.rnames = some rn → assoc n m.rnames = some rn) := by
-  obtain ⟨_, _, _, _, hinv, _, _, _⟩ := extract_ok_inv hrc hx
+  obtain ⟨_, _, _, _, hinv, _⟩ := extract_ok_inv hwf hx
   exact ⟨hinv.sub.cell, hinv.sub.range, hinv.sub.name, hinv.sub.rname⟩
 
-theorem extract_formulae_empty (m x : XModel) (focus : List Addr) (hrc : RangeNotCell m)
+/-- `formulae` of the extracted model is not filled -/
+theorem extract_formulae_empty (m x : XModel) (focus : List Addr) (hwf : WF m)
     (hx : extract m focus = .ok x) : x.formulae = [] := by
-  obtain ⟨_, _, _, _, _, _, _, h⟩ := extract_ok_inv hrc hx
+  obtain ⟨_, _, _, _, _, h⟩ := extract_ok_inv hwf hx
   exact h
 
-/-
-  Full-strength statements (the property as stated), for every well-formed model `m`:
-      extract m focus = .ok x →
-        ∀ a, Closure (deps m) focus a → (the cell / range stored at `a` in `m` is stored at `a` in `x`)
-      ∀ f ∈ focus, fresh sem fuel (applySets sets (buildCode x)) f = fresh sem fuel (applySets sets (buildCode m)) f
-  Both are FALSE for the model of the current code: `extract` follows `formula.terms`, and the term of a
-  defined name (`Sheet1!myname`) is neither a key of `model.cells` nor of `model.ranges`, so the cell / range
-  the name is bound to is not copied and the name itself is not copied (finding D1301; kernel-checked
-  counter-example `extract_sound_fails_D1301` below).  Proved: the statements under the guard `NameFree`
-  (no formula in the closure mentions a defined name, no range in the closure has a name as a member).
--/
-
 /-- the extracted model contains the closure of the focus, with identical contents -/
-theorem extract_contains_closure_partial (m x : XModel) (focus : List Addr) (hwf : WF m)
-    (hfocus : ∀ a ∈ focus, m.st.range? a = none) (hnf : NameFree m (Closure (deps m) focus))
-    (hx : extract m focus = .ok x) :
+theorem extract_contains_closure (m x : XModel) (focus : List Addr) (hwf : WF m)
+    (hfocus : ∀ a ∈ focus, m.st.range? a = none) (hx : extract m focus = .ok x) :
     ∀ a, Closure (deps m) focus a →
       (∀ c, m.st.cell? a = some c → x.st.cell? a = some c)
       ∧ (∀ r, m.st.range? a = some r → x.st.range? a = some r) := by
-  obtain ⟨x0, _, hfd, hle, hinv, _, _, _⟩ := extract_ok_inv hwf.rangeNotCell hx
+  obtain ⟨x0, _, hfd, hle, hinv, _⟩ := extract_ok_inv hwf hx
   intro a ha
-  have := (closure_handled hwf hfocus hnf hfd hle hinv a ha).1
+  have := (closure_handled hwf hfocus hfd hle hinv a ha).1
   exact ⟨this.2, this.1⟩
 
 /-- every focused address evaluates in the extracted model as in the original, also after the same
     sequence of `set_cell_value` on both (addressed alike in both models) -/
-theorem extract_sound_partial (m x : XModel) (focus : List Addr) (hwf : WF m)
-    (hfocus : ∀ a ∈ focus, m.st.range? a = none) (hnf : NameFree m (Closure (deps m) focus))
-    (hx : extract m focus = .ok x)
+theorem extract_sound (m x : XModel) (focus : List Addr) (hwf : WF m)
+    (hfocus : ∀ a ∈ focus, m.st.range? a = none) (hx : extract m focus = .ok x)
     (sets : List (Addr × V)) (hsets : ∀ s ∈ sets, m.st.resolve s.1 = x.st.resolve s.1)
     (sem : Sem) (fuel : Nat) (f : Addr) (hf : f ∈ focus) :
     fresh sem fuel (applySets sets (buildCode x)) f = fresh sem fuel (applySets sets (buildCode m)) f :=
   (fresh_reads_closed_after_sets (buildCode m) (buildCode x) (closed_closure m focus)
-    (extract_agree hwf hfocus hnf hx) sets hsets sem fuel f (Closure.root hf)).symm
+    (extract_agree hwf hfocus hx) sets hsets sem fuel f (Closure.root hf)).symm
 
-/-- every cell and every range of the extracted model lies in the closure of the focus (nothing else is
-    copied) — same guard -/
-theorem extract_minimal_partial (m x : XModel) (focus : List Addr)
-    (hnf : NameFree m (Closure (deps m) focus)) (hx : extract m focus = .ok x) :
+/-- every cell and every range of the extracted model lies in the closure of the focus -/
+theorem extract_minimal (m x : XModel) (focus : List Addr) (hwf : WF m) (hx : extract m focus = .ok x) :
     (∀ a c, x.st.cell? a = some c → Closure (deps m) focus a)
     ∧ (∀ k r, x.st.range? k = some r → Closure (deps m) focus k) :=
-  extract_minimal hnf hx
+  extract_minimal_aux hwf hx
 
-/-! ### the proposed repair of D1301 makes the property hold at full strength
-
-  `extractR` = `extract` with the `else:` branch of proposed_fixes/C13-D1301.diff (a term that is a defined
-  name copies the name and pushes what it is bound to).  No `NameFree` guard; the hypotheses are hygiene of
-  compiled workbooks only (`WF`, a named range is registered under its key, range members are not names). -/
-
-theorem worklistRepaired_terminates (m x : XModel) (todo : List Addr) (hwf : WF m) (hreg : RNamesRegistered m)
-    (hs : Sub x m) : (worklistR m (workFuelR m todo) x todo).2 = [] :=
-  worklistR_finishes hwf hreg _ x todo hs (muR_le_workFuelR m x todo)
-
-theorem extractRepaired_contains_closure (m x : XModel) (focus : List Addr) (hwf : WF m)
-    (hreg : RNamesRegistered m) (hmem : RangeMembersNotNames m)
-    (hfocus : ∀ a ∈ focus, m.st.range? a = none) (hx : extractR m focus = .ok x) :
-    ∀ a, Closure (deps m) focus a →
-      (∀ c, m.st.cell? a = some c → x.st.cell? a = some c)
-      ∧ (∀ r, m.st.range? a = some r → x.st.range? a = some r) := by
-  obtain ⟨x0, _, hfd, hle, hinv, _⟩ := extractR_ok_inv hwf hreg hx
-  intro a ha
-  have := (closure_handledR hwf hreg hmem hfocus hfd hle hinv a ha).1
-  exact ⟨this.2, this.1⟩
-
-theorem extractRepaired_sound (m x : XModel) (focus : List Addr) (hwf : WF m)
-    (hreg : RNamesRegistered m) (hmem : RangeMembersNotNames m)
-    (hfocus : ∀ a ∈ focus, m.st.range? a = none) (hx : extractR m focus = .ok x)
-    (sets : List (Addr × V)) (hsets : ∀ s ∈ sets, m.st.resolve s.1 = x.st.resolve s.1)
-    (sem : Sem) (fuel : Nat) (f : Addr) (hf : f ∈ focus) :
-    fresh sem fuel (applySets sets (buildCode x)) f = fresh sem fuel (applySets sets (buildCode m)) f :=
-  (fresh_reads_closed_after_sets (buildCode m) (buildCode x) (closed_closure m focus)
-    (extractR_agree hwf hreg hmem hfocus hx) sets hsets sem fuel f (Closure.root hf)).symm
-
-/-- a `set_cell_value` by cell address of a cell that is not a defined name is addressed alike in both -/
-theorem sets_ok_of_not_name (m x : XModel) (focus : List Addr) (hrc : RangeNotCell m)
+/-- a `set_cell_value` by the address of a cell that is not a defined name is addressed alike in both -/
+theorem sets_ok_of_not_name (m x : XModel) (focus : List Addr) (hwf : WF m)
     (hx : extract m focus = .ok x) (a : Addr) (ha : m.isName a = false) :
     m.st.resolve a = x.st.resolve a := by
-  obtain ⟨_, _, _, _, hinv, _, _, _⟩ := extract_ok_inv hrc hx
+  obtain ⟨_, _, _, _, hinv, _⟩ := extract_ok_inv hwf hx
   have h1 := (isName_false ha).1
   have h2 := (isName_false (isName_false_of_sub hinv.sub ha)).1
   simp only [MState.resolve, h1, h2]
+
+/-- `extract` raises (KeyError) only for a focused defined name bound to a cell that is not in `model.cells`
+    — which `build_defined_names` never creates -/
+theorem extract_raises_only_for_dangling_name (m : XModel) (focus : List Addr)
+    (hnames : ∀ n t, assoc n m.st.names = some t → m.st.cell? t ≠ none) :
+    ∃ x, extract m focus = .ok x := by
+  have hstep : ∀ x a, ∃ x', focusStep m x a = .ok x' := by
+    intro x a
+    unfold focusStep
+    cases m.st.cell? a with
+    | some c => exact ⟨_, rfl⟩
+    | none =>
+      simp only
+      cases hn : assoc a m.st.names with
+      | some t =>
+        simp only [copyCell]
+        cases hc : m.st.cell? t with
+        | none => exact absurd hc (hnames a t hn)
+        | some c => exact ⟨_, rfl⟩
+      | none =>
+        simp only
+        cases assoc a m.rnames with
+        | some rn => exact ⟨_, rfl⟩
+        | none => exact ⟨_, rfl⟩
+  have hphase : ∀ (l : List Addr) x, ∃ x', focusPhase m x l = .ok x' := by
+    intro l
+    induction l with
+    | nil => intro x; exact ⟨x, rfl⟩
+    | cons a rest ih =>
+      intro x
+      obtain ⟨x1, h1⟩ := hstep x a
+      obtain ⟨x2, h2⟩ := ih x1
+      exact ⟨x2, by simp only [focusPhase, h1, h2]⟩
+  obtain ⟨x0, h0⟩ := hphase focus XModel.empty
+  exact ⟨(worklist m (workFuel m (initTerms x0).reverse) x0 (initTerms x0).reverse).1, by
+    simp only [extract, h0]⟩
 
 /-- extraction is a function of the model: the original is returned as it was (aliasing between the two
     object graphs is not modelled; the correspondence check compares the original before and after the
     extraction and after changes of the extract) -/
 theorem extract_pure (m : XModel) (focus : List Addr) : (runExtract m focus).1 = m := rfl
 
-/-! ### non-vacuity, and the two findings -/
+/-! ### non-vacuity -/
 
 def A1 : Addr := "S!A1".toList
 def A2 : Addr := "S!A2".toList
 def A3 : Addr := "S!A3".toList
 def B1 : Addr := "S!B1".toList
 def B2 : Addr := "S!B2".toList
+def B3 : Addr := "S!B3".toList
 def C1 : Addr := "T!C1".toList
-def RK : Addr := "S!A1:A2".toList
+def RK : Addr := "S!A1:A3".toList
 def NM : Addr := "nm".toList
+def N2 : Addr := "n2".toList
 def RN : Addr := "rn".toList
 
 def num (n : Int) : V := .s (.num (.int n))
 
-/-- `A1 = 5, A2 = 7, B1 = f(A1:A2, A1), B2 = f(B1, 1), C1 = f(B2)`, name `nm → A2`, range name `rn → A1:A2` -/
+/-- `A1 = 5, A2 = 7` (`A3` is an empty cell of the sheet), `B1 = f(rn, A1)`, `B2 = f(nm, 1)`, `B3 = f(A1:A3)`,
+    `C1 = f(B2)`; names `nm → A2`, `n2 → C1`; range name `rn → A1:A3` -/
 def ex : XModel where
   st := {
     cells := [(A1, { value := num 5, formula := none }), (A2, { value := num 7, formula := none }),
-              (B1, { value := .s .blank, formula := some (.app 4 [.rng RK, .ref A1]) }),
-              (B2, { value := .s .blank, formula := some (.app 0 [.ref B1, .lit (num 1)]) }),
+              (B1, { value := .s .blank, formula := some (.app 4 [.rng RN, .ref A1]) }),
+              (B2, { value := .s .blank, formula := some (.app 0 [.ref NM, .lit (num 1)]) }),
+              (B3, { value := .s .blank, formula := some (.app 4 [.rng RK]) }),
               (C1, { value := .s .blank, formula := some (.app 7 [.ref B2]) })],
-    ranges := [(RK, { cells := [[A1], [A2]] })],
-    names := [(NM, A2)] }
-  rnames := [(RN, { key := RK, cells := [[A1], [A2]] })]
+    ranges := [(RK, { cells := [[A1], [A2], [A3]] })],
+    names := [(NM, A2), (N2, C1)] }
+  rnames := [(RN, { key := RK, cells := [[A1], [A2], [A3]] })]
 
-def exClosure : List Addr := [C1, NM, B2, A2, B1, RK, A1]
-
-/-- the hypotheses of `extract_sound_partial` hold for `ex` and the focus `[C1, nm]` … -/
+/-- the hypotheses of `extract_sound` / `extract_contains_closure` / `extract_minimal` hold for `ex` … -/
 example : WF ex := wf_of_wfb (by decide)
-example : ∀ a ∈ [C1, NM], ex.st.range? a = none := by decide
-example : NameFree ex (Closure (deps ex) [C1, NM]) :=
-  nameFree_of_list (s := exClosure) (by decide)
-    (closure_subset_of_saturated (deps ex) [C1, NM] exClosure (by decide) (by decide))
-/-- … the extraction succeeds and copies the five cells, the range and the name -/
-example : (extract ex [C1, NM]).toOption.map (fun x => (x.st.cells.map (·.1), x.st.ranges.map (·.1),
-    x.st.names, x.formulae)) = some ([C1, A2, B2, B1, A1], [RK], [(NM, A2)], []) := by rfl
-
-/-- finding D1301: `B2 = f(nm)` with `nm → A2`; the extract of `[B2]` holds `B2` only, and `B2` evaluates
-    to the blank instead of 7 -/
-def exD1301 : XModel where
-  st := {
-    cells := [(A2, { value := num 7, formula := none }),
-              (B2, { value := .s .blank, formula := some (.app 0 [.ref NM]) })],
-    ranges := [], names := [(NM, A2)] }
+example : ∀ a ∈ [C1, RN, B1], ex.st.range? a = none := by decide
+example : ∀ n t, assoc n ex.st.names = some t → ex.st.cell? t ≠ none := by
+  intro n t h
+  have all : ∀ p ∈ ex.st.names, ex.st.cell? p.2 ≠ none := by decide
+  exact all (n, t) (assoc_mem h)
 
 def firstArg : Sem where
   app := fun _ vs => match vs with | v :: _ => .val v | [] => .val (.s .blank)
   truth := fun _ => some true
 
-theorem extract_sound_fails_D1301 :
-    ∃ x, extract exD1301 [B2] = .ok x ∧ WF exD1301 ∧ x.st.cells.map (·.1) = [B2]
-      ∧ fresh firstArg 5 (buildCode exD1301) B2 = .val (num 7)
-      ∧ fresh firstArg 5 (buildCode x) B2 = .val (.s .blank) := by
-  refine ⟨_, rfl, wf_of_wfb (by decide), by decide, by decide, by decide⟩
+/-- … the extraction of `[n2]` follows the defined name `nm` used by `B2` (regression of D1301): it copies
+    `C1, B2, A2` and the name, and `n2` evaluates to 7 in the extract -/
+example : (extract ex [N2]).toOption.map (fun x => (x.st.cells.map (·.1), x.st.ranges.map (·.1),
+    x.st.names, x.formulae, fresh firstArg 5 (buildCode x) N2))
+    = some ([C1, B2, A2], [], [(N2, C1), (NM, A2)], [], .val (num 7)) := by rfl
 
-/-- with the repair the witness of D1301 evaluates to 7 in the extract as well -/
-example : (extractR exD1301 [B2]).toOption.map (fun x => (x.st.cells.map (·.1), x.st.names,
-    fresh firstArg 5 (buildCode x) B2)) = some ([B2, A2], [(NM, A2)], .val (num 7)) := by rfl
-example : RNamesRegistered ex := by
-  intro n rn h
-  have all : ∀ p ∈ ex.rnames, ex.st.range? p.2.key ≠ none := by decide
-  exact all (n, rn) (assoc_mem h)
-example : RangeMembersNotNames ex := by
-  intro k r h y hy
-  have all : ∀ p ∈ ex.st.ranges, ∀ y ∈ p.2.cells.flatten, ex.isName y = false := by decide
-  exact all (k, r) (assoc_mem h) y hy
-example (m : XModel) : Sub XModel.empty m := sub_empty m
-
-/-- finding D1302: a focused name bound to a range with a member that is not in `model.cells`
-    (an empty cell of the sheet) makes `extract` raise `KeyError(member)` -/
-def exD1302 : XModel where
-  st := { cells := [(A1, { value := num 5, formula := none })], ranges := [], names := [] }
-  rnames := [(RN, { key := RK, cells := [[A1], [A2]] })]
-
-theorem extract_raises_D1302 : extract exD1302 [RN] = .error A2 := by rfl
+/-- … a formula over a named range copies the name, the range and its members; a focused named range over
+    an empty cell copies the members that are cells (regression of D1302) -/
+example : (extract ex [B1]).toOption.map (fun x => (x.st.cells.map (·.1), x.st.ranges.map (·.1),
+    x.rnames.map (·.1))) = some ([B1, A1, A2], [RK], [RN]) := by rfl
+example : (extract ex [RN]).toOption.map (fun x => (x.st.cells.map (·.1), x.st.ranges.map (·.1),
+    x.rnames.map (·.1))) = some ([A1, A2], [], [RN]) := by rfl
 
 end XlVerif.Props.C13
